@@ -204,6 +204,23 @@ def _loop_has_input_exit(b, start_bb):
     return len(exits) > 1
 
 
+def _copy_root(du, l, depth=0):
+    """the variable a temporary is a plain copy of"""
+    while depth < 8:
+        ds = [d for d in du.defs.get(l, []) if d[0] == "assign"]
+        if len(ds) != 1 or len(du.defs.get(l, [])) != 1:
+            return l
+        rv = ds[0][3]["rv"]
+        if rv["k"] != "use":
+            return l
+        pl = rv["a"].get("cp") or rv["a"].get("mv")
+        if pl is None or pl["p"]:
+            return l
+        l = pl["l"]
+        depth += 1
+    return l
+
+
 def _taint(ctx):
     F = ctx.F
     bs = [b for b in F.all_bodies(bins=False) if b.path.startswith(MODS) and "tests::" not in b.path and not b.is_mock()]
@@ -244,6 +261,37 @@ def _taint(ctx):
                 seen.add(key); found += 1
                 ctx.analysed(b)
                 ctx.violation("C16.D3", key, site(b, bb), "%s is applied to a duration derived from an integer parsed from client input with no upper bound: `Instant + Duration` / `Duration * n` panic on overflow (also in release builds), so an extreme timeout argument kills the session task" % d)
+        # a signed integer parsed from the input is converted to usize only under a sign test (`len < 0` handled first):
+        # `-2 as usize` is a length near 2^64 - overflowing index arithmetic, or a packet that never completes
+        if b.path.startswith("protocol::"):
+            from ..lib import branch_conditions as _bc
+            dom_ = None
+            for bb, i, s in b.assigns():
+                rv = s["rv"]
+                if rv["k"] != "cast" or not b.locals[s["place"]["l"]]["ty"] == "usize":
+                    continue
+                opl = rv["a"].get("cp") or rv["a"].get("mv")
+                if opl is None or opl["p"] or b.locals[opl["l"]]["ty"] not in ("i64", "isize", "i32", "i128") or not T.tainted(b, rv["a"]):
+                    continue
+                du = du or DefUse(b)
+                dom_ = dom_ or cfg.dominators(b)
+                signed = False
+                for d_, discr, val in _bc(b, bb, dom_):
+                    dpl = discr.get("mv") or discr.get("cp")
+                    for df in du.defs.get(dpl["l"], []) if dpl else []:
+                        if df[0] == "assign" and df[3]["rv"]["k"] == "binop" and df[3]["rv"]["op"] in ("Lt", "Le", "Gt", "Ge"):
+                            a_, b_ = df[3]["rv"]["a"], df[3]["rv"]["b"]
+                            for x_, y_ in ((a_, b_), (b_, a_)):
+                                xl = x_.get("cp") or x_.get("mv")
+                                if xl is not None and _copy_root(du, xl["l"]) == _copy_root(du, opl["l"]) and "c" in y_ and y_["c"].get("int") in (0, -1, 1):
+                                    signed = True
+                key = "signed-length-cast:%s" % root
+                if key in seen:
+                    continue
+                seen.add(key)
+                ctx.analysed(b)
+                ctx.check(signed, "C16.D3", key, site(b, bb, i), ok="the parsed length is converted to usize only after its sign was tested",
+                          bad="a signed length parsed from the input is cast to usize without a sign test on the way: a negative length other than the one compared for equality becomes a huge length (overflowing arithmetic, out-of-range index or a request that never completes)")
         for bb, i, s in b.assigns():
             rv = s["rv"]
             is_range = rv["k"] == "agg" and rv.get("ak") == "adt" and norm(rv["adt"]) in ("std::ops::Range", "std::ops::RangeInclusive")
@@ -421,6 +469,18 @@ def _panic_sites(ctx):
                               kind, " -> ".join((cg.path(_nearest_root(cg, roots, eb.path), eb.path) or [eb.path])[-4:]), (" [" + edet + "]") if edet else ""))
     nsel = sum(len(v) for (k, r), v in found.items() if k == "select-panic")
     ctx.check(nsel <= VETTED_PANIC[("select-panic", "*")][0], "C16.D4", "select-panics", None, ok="%d macro-generated select! panics (all-branches-disabled case)" % nsel, bad="%d select!-style panics, more than the vetted %d" % (nsel, VETTED_PANIC[("select-panic", "*")][0]))
+    # premise of the vetted String::truncate in gen_node_id: cluster names are ASCII.  The name decoder must test characters
+    # with the ASCII classes of std; the Unicode classes (is_alphanumeric ..) admit multi-byte characters and the
+    # truncation at a fixed byte offset then panics on CLUSTER NODES / SLOTS
+    tb = [x for x in F.all_bodies(bins=False) if x.crate == "undermoon" and not x.is_mock() and x.path.startswith("<common::cluster::ClusterName as std::convert::TryFrom")]
+    if not tb:
+        ctx.lost("C16.D4", "cluster-name-ascii", "ClusterName::try_from not found")
+    else:
+        classes = [(callee_of(t) or callee_decl(t) or "") for x in tb for bb, t in x.calls()]
+        uni = [c for c in classes if c.rsplit("::", 1)[-1] in ("is_alphanumeric", "is_alphabetic", "is_numeric", "is_lowercase", "is_uppercase") and "char" in c]
+        asc = [c for c in classes if c.rsplit("::", 1)[-1].startswith("is_ascii")]
+        ctx.check(bool(asc) and not uni, "C16.D4", "cluster-name-ascii", site(tb[0]), ok="ClusterName::try_from admits ASCII classes only (premise of the vetted truncate in gen_node_id)",
+                  bad="ClusterName::try_from tests characters with %s: non-ASCII names are admitted, and gen_node_id truncates the padded name at a fixed byte offset, which panics inside a multi-byte character" % (uni or "no ASCII class"))
     # the vetted expect in get_hash_tag is discharged by evaluation: on every sample key the function returns a slice
     hb = F.one("common::utils::get_hash_tag")
     if hb is None:
